@@ -12,6 +12,8 @@ taken to differ (scenarios choose their inputs so).
 
 Library objects (all opaque in the repository: `cryptography`, python-axolotl, hmac/hashlib) and their laws:
     HKDFv3().deriveSecrets(k, info, n)          -> HKDF(k, info)[0:n]                     (the expansion is prefix-stable)
+    HKDF(SHA256, length=n, salt=None | zeros, info).derive(k)   (cryptography, RFC 5869)
+                                                -> HKDF(k, info)[0:n], the same stream: HKDFv3 is RFC 5869 with the all-zero salt
     ByteUtil.split(x, a, b[, c])                -> [x[0:a], x[a:a+b], x[a+b:a+b+c]]
     Cipher(AES(k), CBC(iv)).encryptor()         update*/finalize -> ENC(k, iv, m)         |m| bytes, m a multiple of 16 else ValueError
                           .decryptor()          update*/finalize -> DEC(k, iv, c) ;  DEC(k, iv, ENC(k, iv, m)) = m
